@@ -229,6 +229,16 @@ func (b *B) ClosureBodyStart(fn *gogen.Func, pkg *gogen.Package) {
 	b.post("Open:closure", 0, 0)
 }
 
+// VBlock opens a virtual block (a scope without braces).
+func (b *B) VBlock() { b.pre("VBlock"); b.cb.VBlock(); b.post("Open:vblock", 0, 0) }
+
+// InlineStart opens an inline closure call over the nargs operands on the stack.
+func (b *B) InlineStart(sig *types.Signature, nargs int) {
+	b.pre("BodyStart")
+	b.cb.CallInlineClosureStart(sig, nargs, false)
+	b.post("InlineStart", nargs, sig.Results().Len())
+}
+
 // Discard drops n operands that were built and are not wanted (no error involved), as a
 // compiler does when it probes an expression and retries another way.
 func (b *B) Discard(n int) {
